@@ -41,6 +41,21 @@ def direct_checks(rts, perms, doc):
             vd = s.validate(copy_value(doc))
         except Exception as e:  # reported by the K/O passes
             return out
+        # a result keeps saying what it said, whatever the schema validates afterwards
+        try:
+            held = s.validate(copy_value(doc))
+            said = (held.is_valid, held.num_failures, held.num_rules_tested, len(held.get_failures_string()))
+            for other in (copy_value(doc), [None], {"__other__": 1}, [{"__other__": [1]}]):
+                try:
+                    s.validate(other)
+                except Exception:
+                    pass
+            again = (held.is_valid, held.num_failures, held.num_rules_tested, len(held.get_failures_string()))
+            if again != said:
+                out.append({"kind": "direct", "what": f"a held validation result changed after the schema validated other documents: {said} -> {again}",
+                            "perm": list(perm), "schema": [r.descr()[:200] for r in order], "doc": jval(doc)})
+        except Exception:
+            pass
         # the aggregates are read in every order on results of their own: what one of them says must not depend on which was read first
         reads = {}
         for order_ in (("num_rules_tested", "num_failures", "is_valid"), ("num_failures", "is_valid", "num_rules_tested"),
